@@ -1473,6 +1473,9 @@ GUARD_TYPES = {
     'tokio::sync::SemaphorePermit': ('tokio_sem', 'P'),
     'tokio::sync::OwnedSemaphorePermit': ('tokio_sem', 'P'),
     'tokio::sync::MutexGuard': ('tokio_mutex', 'W'),
+    'tokio::sync::OwnedMutexGuard': ('tokio_mutex', 'W'),
+    'async_lock::MutexGuard': ('async_lock_mutex', 'W'),
+    'async_lock::MutexGuardArc': ('async_lock_mutex', 'W'),
 }
 
 
